@@ -113,9 +113,14 @@ func evalC16(c *Ctx, cs EnumCase) EnumResult {
 			refState, refIdx = r.State, i-1
 			runs++
 		}
-		r := recoverImage(cfg, cap.Points[i], cap.EndT, false)
+		// the directory is recovered, used a little, and recovered again: what the start-up compaction of the
+		// first recovery makes of the leftovers must still be the same state
+		r := recoverImage(cfg, cap.Points[i], cap.EndT, true)
 		res.Sub++
 		what := fmt.Sprintf("history %d, crash right after file-system call #%d of a compaction (%s %s)", a.Hist, p.N, p.Op, p.Path)
+		if r.Crash == "" && r.StartErr == "" && r.Second != "" {
+			vs = append(vs, explore.Violation{Sig: "C16:second-restart-differs", Msg: what + ": the first restart recovers the expected state, the restart after it does not: " + r.Second})
+		}
 		if r.Crash != "" {
 			vs = append(vs, explore.Violation{Sig: "C16:recovery-crash", Msg: what + ": " + r.Crash})
 			continue
